@@ -1,4 +1,8 @@
-// mock of avr-libc <string.h>: only what the emitted helper snippets use
+// mock of avr-libc <string.h>: only what the emitted helper snippets use (the real Arduino.h includes <string.h> itself)
 #pragma once
 typedef unsigned int size_t;
 extern "C" size_t strlen(const char *s);
+extern "C" void *memcpy(void *dest, const void *src, size_t n);
+extern "C" void *memmove(void *dest, const void *src, size_t n);
+extern "C" void *memset(void *dest, int c, size_t n);
+extern "C" int strcmp(const char *a, const char *b);
